@@ -29,7 +29,14 @@ pub const ARCHIVE_CAP: usize = 256 << 20;
 
 static PANIC_INFO: Mutex<Option<String>> = Mutex::new(None);
 
+/// No core files: an abort of a child is an expected observation here.
+fn no_core_dumps() {
+    let lim = libc::rlimit { rlim_cur: 0, rlim_max: 0 };
+    unsafe { libc::setrlimit(libc::RLIMIT_CORE, &lim); }
+}
+
 fn install_panic_hook() {
+    no_core_dumps();
     std::panic::set_hook(Box::new(|info| {
         let s = info.to_string();
         if let Ok(mut g) = PANIC_INFO.lock() { *g = Some(s.chars().take(300).collect()); }
